@@ -185,7 +185,7 @@ func (t *thrModel) liftInto(e ssa.Instruction, g *ssa.Function, depth int) ssa.I
 }
 
 func checkC01(c *Ctx) {
-	c.explanation = "Static decision on threshold's SSA of the orchestration clauses that are necessary for every participant of an orchestrated session to obtain a result under every delivery order: (O1) every start of the backend protocol (KeyGenerator.KeyGen / Signer.Sign) has barrier depth ≥ 2 — it lies inside the continuation of a second Synchronize (or behind the receive on a channel closed only by such a continuation) that is itself inside the continuation of the first; (O2) the RBC handler, the classifier and the backend's Init are in place before the second-level Synchronize is started (so \"everyone passed barrier 2\" implies \"everyone can receive\"); (V1) the second-level synchroniser is built over the agreed member list, its topic depends on that list or on the session topic, its expected count is the list's size or the very value used for the first level; (N1) Sign's first-level expected count is Threshold+1 and the RBC instance size is the number of admitted participants; (W1) SilentScheme returns a party whose HandleMessage is the Box's, whose Box hands to the scheme and forwards sends to the original send, and the scheme sends through the Box. Shamir/Lagrange/pairing algebra, byte-identity of public material, subsets and digests are numerical and not decided."
+	c.explanation = "Static decision on threshold's SSA of the orchestration clauses that are necessary for every participant of an orchestrated session to obtain a result under every delivery order: (O1) every start of the backend protocol (KeyGenerator.KeyGen / Signer.Sign) has barrier depth ≥ 2 — it lies inside the continuation of a second Synchronize (or behind the receive on a channel closed only by such a continuation) that is itself inside the continuation of the first; (O2) the RBC handler, the classifier and the backend's Init are in place before the second-level Synchronize is started (so \"everyone passed barrier 2\" implies \"everyone can receive\"); (O3) SetShareData on the signing session's instance is dominated by Init on that same instance (a backend whose Init resets its state would otherwise sign without a share); (V1) the second-level synchroniser is built over the agreed member list, its topic depends on that list or on the session topic, its expected count is the list's size or the very value used for the first level; (N1) Sign's first-level expected count is Threshold+1 and the RBC instance size is the number of admitted participants; (W1) SilentScheme returns a party whose HandleMessage is the Box's, whose Box hands to the scheme and forwards sends to the original send, and the scheme sends through the Box. Shamir/Lagrange/pairing algebra, byte-identity of public material, subsets and digests are numerical and not decided."
 	c.notDecided = "threshold algebra (Shamir/Lagrange/pairings), byte-identical public material, signer subsets, digests"
 	c.Assume("Synchronizer.Synchronize returns nil iff it ran its continuation (C07.O1); it runs the continuation only after expected members agreed (C07.G2)")
 	t := buildThresholdModel(c)
